@@ -440,8 +440,8 @@ HARNESSES = [
                     "suffix": "1 fully symbolic outcome (2 for k>=9 and in the thorough tier), then success"},
             assumptions=["the loop of guarded() carries only execution_count between iterations (checked syntactically on the AST on every run: premise_loop_state; if it fails the check reports INCONCLUSIVE)"],
             real_valued=True, doc="long horizon by state injection: budget of 10 retries, exhaustion, no call after success"),
-    Harness("long_bulk_errors", long_bulk_errors, "symbolic", lambda tier: [{"items": n} for n in ((128,) if tier == "quick" else (128, 512))],
-            reads=READS, stubs=STUBS, bounds={"bulk error list": "128 (512 thorough) items, one arbitrary status at an arbitrary position, others 429"},
+    Harness("long_bulk_errors", long_bulk_errors, "symbolic", lambda tier: [{"items": n} for n in ((128,) if tier == "quick" else (128, 256))],
+            reads=READS, stubs=STUBS, bounds={"bulk error list": "128 (256 thorough) items, one arbitrary status at an arbitrary position, others 429"},
             real_valued=True, doc="bulk item classification looks at every item"),
     Harness("operations", operations, "symbolic", lambda tier: [{"op": op} for op in OPS], reads=READS,
             stubs=STUBS + ["low-level Elasticsearch client (every API method records the call and produces the symbolic outcome); "
